@@ -262,6 +262,16 @@ pub struct Ctx {
   pub xcheck_expect: Vec<SatRes>,
   pub rng: u64,
   pub pc_dirty_terms: Vec<u32>, // path condition (term ids)
+  pub rec: Option<Vec<RecItem>>,
+  pub rep: Option<(Vec<RecItem>, usize)>,
+  pub quiet: bool,
+  pub diverged: bool,
+}
+
+#[derive(Clone, Debug, PartialEq)]
+pub enum RecItem {
+  Choice(u32, u32),
+  Var(u32),
 }
 
 thread_local! {
@@ -295,6 +305,10 @@ impl Ctx {
       xcheck_expect: vec![],
       rng: seed.wrapping_mul(0x9E3779B97F4A7C15) | 1,
       pc_dirty_terms: vec![],
+      rec: None,
+      rep: None,
+      quiet: false,
+      diverged: false,
     }
   }
   fn begin_run(&mut self, prefix: Vec<Decision>) {
@@ -308,6 +322,10 @@ impl Ctx {
     self.notes.clear();
     self.path_symbolic = false;
     self.pc_dirty_terms.clear();
+    self.rec = None;
+    self.rep = None;
+    self.quiet = false;
+    self.diverged = false;
     if let Some(s) = self.solver.as_mut() {
       s.log.clear();
       s.push();
@@ -506,6 +524,23 @@ pub fn smt(t: u32) -> String {
 /// A fresh symbolic integer.
 pub fn fresh_var() -> u32 {
   with(|c| {
+    if let Some((items, pos)) = c.rep.as_mut() {
+      if let Some(RecItem::Var(id)) = items.get(*pos) {
+        *pos += 1;
+        return *id;
+      }
+      c.diverged = true;
+    }
+    let id = fresh_var_inner(c);
+    if let Some(r) = c.rec.as_mut() {
+      r.push(RecItem::Var(id));
+    }
+    id
+  })
+}
+
+fn fresh_var_inner(c: &mut Ctx) -> u32 {
+  {
     let i = c.nvars;
     c.nvars += 1;
     match &c.mode {
@@ -518,7 +553,7 @@ pub fn fresh_var() -> u32 {
         c.mk(Term::Var(i))
       }
     }
-  })
+  }
 }
 
 fn abort(a: Abort) -> ! {
@@ -603,6 +638,27 @@ pub fn choose(n: u32) -> u32 {
     return 0;
   }
   with(|c| {
+    if let Some((items, pos)) = c.rep.as_mut() {
+      if let Some(RecItem::Choice(v, m)) = items.get(*pos) {
+        if *m == n {
+          *pos += 1;
+          return *v;
+        }
+      }
+      // the second form asked for something else: control flow diverged
+      c.diverged = true;
+      return 0;
+    }
+    let v = choose_inner(c, n);
+    if let Some(r) = c.rec.as_mut() {
+      r.push(RecItem::Choice(v, n));
+    }
+    v
+  })
+}
+
+fn choose_inner(c: &mut Ctx, n: u32) -> u32 {
+  {
     let depth = c.trail.len();
     let k = c.nchoice;
     c.nchoice += 1;
@@ -630,7 +686,7 @@ pub fn choose(n: u32) -> u32 {
       s.assert(&format!("(= c{} {})", k, v));
     }
     v
-  })
+  }
 }
 
 pub fn choose_bool() -> bool {
@@ -663,6 +719,9 @@ pub fn cover(label: &str) {
 /// The property: z3 decides `pc && !cond`. `key` names the *shape* of the failure.
 pub fn check(cond: u32, key: &str, detail: impl FnOnce() -> String) {
   if std::thread::panicking() {
+    return;
+  }
+  if with(|c| c.quiet) {
     return;
   }
   let viol = with(|c| {
@@ -770,6 +829,9 @@ pub fn valid(cond: u32) -> bool {
 /// Unconditional violation on this path.
 pub fn fail(key: &str, detail: impl FnOnce() -> String) {
   if std::thread::panicking() {
+    return;
+  }
+  if with(|c| c.quiet) {
     return;
   }
   let f = mk(Term::False);
@@ -952,3 +1014,27 @@ pub fn cross_check_cvc5(queries: &[(String, SatRes)]) -> (usize, usize, Vec<Stri
 }
 
 pub fn _unused(_: Duration) {}
+
+// ---------------------------------------------------------------- differential runs
+
+/// Run `f(false)` recording every choice and fresh variable, then `f(true)` replaying
+/// them, with the per-form oracles silenced; returns both results and whether the
+/// second run asked for different choices (diverged).
+pub fn twice<R>(f: impl Fn(bool) -> R, between: impl FnOnce()) -> (R, R, bool) {
+  with(|c| {
+    c.rec = Some(vec![]);
+    c.quiet = true;
+  });
+  let a = f(false);
+  let rec = with(|c| c.rec.take().unwrap_or_default());
+  between();
+  with(|c| c.rep = Some((rec, 0)));
+  let b = f(true);
+  let div = with(|c| {
+    let d = c.diverged || c.rep.as_ref().map_or(false, |(items, pos)| *pos != items.len());
+    c.rep = None;
+    c.quiet = false;
+    d
+  });
+  (a, b, div)
+}
